@@ -37,7 +37,7 @@ Proof. intros [Hd Hs]. cbv zeta. rewrite (lsf_eq dst src Hd Hs).
   - apply send_link_setup_eq; assumption. Qed.
 
 (** ** stream frames: any 30-byte LSF, fragment number, 15-bit frame number, 16-byte payload, either EOS value *)
-Definition fn_arg (fn : N) (eos : bool) : N := if eos then u16 (N.lor fn C.eos_mask) else fn.
+Definition fn_arg (fn : N) (eos : bool) : N := if eos then u16 (N.lor fn ConstsModulator.eos_mask) else fn.
 
 Lemma frames_are_spec junk lsf n fn payload eos : all_bytes lsf -> length lsf = 30%nat -> (n < 6)%nat -> fn < 32768 ->
   all_bytes payload -> length payload = 16%nat ->
